@@ -1,6 +1,7 @@
 package main
 
 import (
+	"os/exec"
 	"regexp"
 	"flag"
 	"fmt"
@@ -74,12 +75,44 @@ func hasString(xs []string, s string) bool {
 	return false
 }
 
-// solveAll discharges obligations in parallel.
+// solveAll discharges obligations in parallel.  Obligations of one function
+// share their declarations and assumption prefix, so they are first sent to a
+// single incremental z3 process (push/pop per obligation); whatever that pass
+// leaves undecided is decided individually by racing the three solvers.
 func solveAll(obls []*Obligation, outDir string, budgetMs, seed, workers int) []OblResult {
 	res := make([]OblResult, len(obls))
+	// group by VC
+	groups := map[*VC][]int{}
+	var order []*VC
+	for i, o := range obls {
+		if _, ok := groups[o.vc]; !ok {
+			order = append(order, o.vc)
+		}
+		groups[o.vc] = append(groups[o.vc], i)
+	}
 	var wg sync.WaitGroup
 	sem := make(chan struct{}, workers)
+	decided := make([]bool, len(obls))
+	if os.Getenv("GOVC_NOBATCH") == "" {
+		for _, vc := range order {
+			idxs := groups[vc]
+			if len(idxs) < 4 {
+				continue
+			}
+			wg.Add(1)
+			sem <- struct{}{}
+			go func(vc *VC, idxs []int) {
+				defer wg.Done()
+				defer func() { <-sem }()
+				batchSolve(vc, obls, idxs, outDir, budgetMs, seed, res, decided)
+			}(vc, idxs)
+		}
+		wg.Wait()
+	}
 	for i, o := range obls {
+		if decided[i] {
+			continue
+		}
 		wg.Add(1)
 		sem <- struct{}{}
 		go func(i int, o *Obligation) {
@@ -96,8 +129,14 @@ func solveAll(obls []*Obligation, outDir string, budgetMs, seed, workers int) []
 				return
 			}
 			b := budgetMs
+			if o.Budget > 0 {
+				b = o.Budget
+			}
 			if o.Cover && b > 1500 {
 				b = 1500 // reachability covers: a timeout is merely "undecided"
+				if v := os.Getenv("GOVC_COVER_MS"); v != "" {
+					fmt.Sscanf(v, "%d", &b)
+				}
 			}
 			r := solve(file, b, seed)
 			res[i] = OblResult{O: o, R: r, File: file}
@@ -105,6 +144,65 @@ func solveAll(obls []*Obligation, outDir string, budgetMs, seed, workers int) []
 	}
 	wg.Wait()
 	return res
+}
+
+// batchSolve runs the obligations idxs (all of one VC) through one incremental
+// z3 process.  Only "unsat" answers for proof obligations are accepted from the
+// batch; everything else is left to the individual pass (which also produces
+// the counter-model).
+func batchSolve(vc *VC, obls []*Obligation, idxs []int, outDir string, budgetMs, seed int, res []OblResult, decided []bool) {
+	sorted := append([]int(nil), idxs...)
+	sort.SliceStable(sorted, func(a, b int) bool { return obls[sorted[a]].Prefix < obls[sorted[b]].Prefix })
+	var b strings.Builder
+	b.WriteString(obls[sorted[0]].header())
+	pos := 0
+	var asked []int
+	for _, i := range sorted {
+		o := obls[i]
+		if o.Cover {
+			continue
+		}
+		for ; pos < o.Prefix; pos++ {
+			b.WriteString(vc.asserts[pos])
+			b.WriteByte('\n')
+		}
+		fmt.Fprintf(&b, "(push 1)\n(assert %s)\n(assert (not %s))\n(check-sat)\n(pop 1)\n", o.Guard, o.Goal)
+		asked = append(asked, i)
+	}
+	if len(asked) == 0 {
+		return
+	}
+	file, err := writeQuery(outDir, "batch_"+vc.fnName(), b.String())
+	if err != nil {
+		return
+	}
+	per := budgetMs / 4
+	if per < 500 {
+		per = 500
+	}
+	start := time.Now()
+	cmd := exec.Command("z3-new", fmt.Sprintf("-t:%d", per), fmt.Sprintf("smt.random_seed=%d", seed), file)
+	out, _ := cmd.Output()
+	el := time.Since(start).Seconds()
+	lines := strings.Split(strings.TrimSpace(string(out)), "\n")
+	var answers []string
+	for _, l := range lines {
+		l = strings.TrimSpace(l)
+		if l == "sat" || l == "unsat" || l == "unknown" || l == "timeout" {
+			answers = append(answers, l)
+		} else if strings.HasPrefix(l, "(error") {
+			return // malformed batch: fall back entirely
+		}
+	}
+	if len(answers) != len(asked) {
+		return
+	}
+	for k, i := range asked {
+		if answers[k] == "unsat" {
+			res[i] = OblResult{O: obls[i], R: solveResult{Status: "unsat", Solver: "z3-new(batch)", Secs: el / float64(len(asked))}, File: file}
+			decided[i] = true
+		}
+	}
 }
 
 func cmdDump(args []string) int {
@@ -160,7 +258,7 @@ func cmdDump(args []string) int {
 	if os.Getenv("GOVC_WHY") != "" {
 		for _, fn := range fns {
 			es := eng.inferredEffects(fn)
-			fmt.Printf("effects of %s: all=%v vars=%d\n", shortFn(fn), es.all, len(es.vars))
+			fmt.Printf("effects of %s: all=%v vars=%v fresh=%v\n", shortFn(fn), es.all, sortedKeys(es.vars), sortedKeys(es.fresh))
 		}
 		for f, w := range effWhy {
 			fmt.Printf("  %s:%s\n", shortFn(f), w)
@@ -188,13 +286,19 @@ func cmdDump(args []string) int {
 			fmt.Printf("  frame %-50s ok=%v actual={%s} %s\n", r.Name, r.OK, strings.Join(r.Actual, ", "), r.Detail)
 		}
 	}
+	for _, im := range eng.cs.Immutable {
+		if *prop == "" || hasString(im.Props, *prop) {
+			r := eng.checkImmutable(im)
+			fmt.Printf("  frame %-50s ok=%v %s\n", r.Name, r.OK, r.Detail)
+		}
+	}
 	t0 := time.Now()
 	results := solveAll(all, verifDir+"/out/dump", *budget, 0, 16)
 	bad := 0
 	for _, r := range results {
 		ok := r.R.Status == "unsat"
 		if r.O.Cover {
-			ok = r.R.Status == "sat"
+			ok = r.R.Status != "unsat"
 		}
 		if !ok {
 			bad++
